@@ -134,6 +134,9 @@ class PendingIntEntry:
             # Cannot reproduce the scenario. Especially, delay in validator() does not trigger the race condition
             # But anyway, let me add a guard check here.
             return
+        if utils.timestamp() > self.deadline:
+            # The verdict came after the lifetime ran out while nobody was awaiting the result: it is a timeout.
+            return
         if valid == ValidResult.PASS or valid == ValidResult.ALLOW_BYPASS:
             self.future.set_result((name, content, pkt_context))
         else:
